@@ -194,7 +194,7 @@ def run(ck):
             continue
         seen.add(key)
         ck.report(dict(reference=cases[ci]["lines"][0], translated=cases[ci]["lines"][k], translation=cases[ci]["ts"][k], kind=cases[ci]["kinds"][k]), oracle=key, key="placement:" + key, what=what)
-    if not fails and not ok:
+    if not ck.violations and not ok:
         ck.report(dict(log=ck.proof_res["log"][-3000:]), unchecked="Properties_C14.vo", what="proof obligations of C14 no longer check")
     ck.cov["trusted_base"] = vlib.TRUSTED_BASE_COMMON
     ck.assumptions = ["translations up to 100 cell sizes: beyond that the absolute-coordinate signed-volume formula loses (distance/size)^3*eps and the comparison tolerance would hide real differences",
